@@ -214,16 +214,7 @@ func (a *pwaligner) fillMatrix_SW() (err error) {
 			a.trace[0][j] = ALIGN_DIAG // TO REVIEW
 		}
 
-		if j > 0 {
-			a.maxa[j] = a.matrix[0][j]
-			if a.trace[0][j-1] == ALIGN_LEFT {
-				a.maxa[j] += a.gapextend
-			} else {
-				a.maxa[j] += a.gapopen
-			}
-		} else {
-			a.maxa[j] = a.matrix[0][j] + a.gapopen
-		}
+		a.maxa[j] = a.matrix[0][j] + a.gapopen
 		if a.matrix[0][j] > a.maxscore {
 			a.maxscore = a.matrix[0][j]
 			a.maxi = 0
